@@ -21,9 +21,10 @@
                                                   of maintainShards in context C for SOME Go
                                                   map iteration order and SOME random source
       allowed_batch P C b := allowed P C (OBatch b)
-      canon P C ids : outcome                     one canonical element of the allowed set
-                                                  (first candidates in trie order, new ids
-                                                  taken from the stream [ids]); executable
+      canon P C idf : outcome                     one canonical element of the allowed set
+                                                  (first candidates in trie order, the new id
+                                                  for shard s is [idf s]); executable;
+                                                  SchedProofs.allowed_canon: it is allowed
       per-shard decision data (all take P C and a shard c of the view):
         sr_failed sr_ok sr_wait                   the shardRepair lists (as SETS; order = map order)
         sr_quorum sr_available add_required create_required delete_required need_restore
@@ -329,74 +330,58 @@ Definition allowed (o : outcome) : bool :=
   end.
 Definition allowed_batch (b : list request) : bool := allowed (OBatch b).
 
-(** * one canonical outcome (first candidates in trie order; new ids from [ids]) *)
+(** * one canonical outcome (first candidates in trie order; the new replica id for shard
+      [s] is [idf s]) *)
 Definition create_req (c : shard) (n : replica) (join restore : bool) (app : N) : request :=
   let ms := members_of c in
   mkReq RCreate (s_id c) (ms.*1) 0 (ms.*1) (ms.*2) (r_id n) (r_addr n) join restore app.
 
-Definition canon_restore (c : shard) : option (list request) :=   (* None = panic *)
-  if has_restore c then
-    match c_defs C !! s_id c with
-    | Some sd => Some ((λ n, create_req c n false true (sd_app sd)) <$> restore_set c)
-    | None => None
-    end
-  else Some [].
+(* the restore requests of one entry (none when it is not restored or undefined) *)
+Definition canon_restore (c : shard) : list request :=
+  match c_defs C !! s_id c with
+  | Some sd => (λ n, create_req c n false true (sd_app sd)) <$> restore_set c
+  | None => []
+  end.
 
-(* result of one repair step: requests, or error / panic; consumes at most one id *)
-Inductive rstep_res := RReqs (qs : list request) (used : bool) | RErr | RPanic.
+(* result of one repair step *)
+Inductive rstep_res := RReqs (qs : list request) | RErr | RPanic.
 Definition canon_repair (c : shard) (id : N) : rstep_res :=
-  if has_restore c then RReqs [] false else
+  if has_restore c then RReqs [] else
   match repair_action c with
-  | ANone => RReqs [] false
+  | ANone => RReqs []
   | AUndefined => RPanic
   | ADelete =>
     match sr_failed c, sr_ok c with
-    | n :: _, m :: _ => RReqs [mkReq RDelete (s_id c) [r_id n] (s_cci c) [] [] 0 (r_addr m) false false 0] false
+    | n :: _, m :: _ => RReqs [mkReq RDelete (s_id c) [r_id n] (s_cci c) [] [] 0 (r_addr m) false false 0]
     | _, _ => RPanic
     end
   | ACreate sd =>
     match sr_wait c with
-    | n :: _ => RReqs [create_req c n true false (sd_app sd)] false
+    | n :: _ => RReqs [create_req c n true false (sd_app sd)]
     | [] => RPanic
     end
   | AAdd =>
     match sr_failed c, sr_ok c with
     | n :: _, m :: _ =>
       match candidates n with
-      | h :: _ => RReqs [mkReq RAdd (s_id c) [id] (s_cci c) [] [h_addr h] 0 (r_addr m) false false 0] true
+      | h :: _ => RReqs [mkReq RAdd (s_id c) [id] (s_cci c) [] [h_addr h] 0 (r_addr m) false false 0]
       | [] => RErr
       end
     | _, _ => RPanic
     end
   end.
+Definition is_rpanic (r : rstep_res) : bool := match r with RPanic => true | _ => false end.
+Definition is_rerr (r : rstep_res) : bool := match r with RErr => true | _ => false end.
+Definition reqs_of (r : rstep_res) : list request := match r with RReqs qs => qs | _ => [] end.
 
-Fixpoint canon_repairs (cs : list shard) (ids : list N) : option (option (list request)) :=
-  (* None = panic, Some None = error *)
-  match cs with
-  | [] => Some (Some [])
-  | c :: cs' =>
-    match canon_repair c (hd 1 ids) with
-    | RPanic => None
-    | RErr => Some None
-    | RReqs qs used =>
-      match canon_repairs cs' (if used then tl ids else ids) with
-      | Some (Some rest) => Some (Some (qs ++ rest))
-      | r => r
-      end
-    end
-  end.
-
-Definition canon (ids : list N) : outcome :=
-  match mapM canon_restore (filter (λ c, need_restore c = true) entries),
-        mapM canon_restore (filter (λ c, need_restore c = false) entries) with
-  | Some ru, Some rf =>
-    match canon_repairs entries ids with
-    | None => OCrash
-    | Some None => OError
-    | Some (Some rp) =>
-      let b := concat ru ++ concat rf ++ rp ++ kills in
-      if forallb valid_req b then OBatch b else OCrash
-    end
-  | _, _ => OCrash
-  end.
+Definition canon (idf : N → N) : outcome :=
+  if restore_crash then OCrash else
+  let rs := (λ c, canon_repair c (idf (s_id c))) <$> entries in
+  if existsb is_rpanic rs then OCrash
+  else if existsb is_rerr rs then OError
+  else
+    let b := concat ((λ c, if need_restore c then canon_restore c else []) <$> entries)
+             ++ concat ((λ c, if need_restore c then [] else canon_restore c) <$> entries)
+             ++ concat (reqs_of <$> rs) ++ kills in
+    if forallb valid_req b then OBatch b else OCrash.
 End Sched.
